@@ -158,6 +158,14 @@ Theorem C18_generation_refuted : exists i : input,
 Proof. exists gen_witness. vm_compute. repeat split; congruence. Qed.
 Print Assumptions C18_generation_refuted.
 
+(* (11) The header written for an object must carry its xref entry's generation: for EVERY input, an entry
+   that passes the strict check belongs to an object whose header generation equals the entry's. *)
+Theorem C18_header_carries_entry_generation : forall i : input,
+  let '(_, _, tbl) := body_of i in
+  Forall2 (fun o x => entry_locates (layout i) x = true -> o_xgen o = o_gen o) (i_objs i) tbl.
+Proof. exact header_carries_entry_generation. Qed.
+Print Assumptions C18_header_carries_entry_generation.
+
 (* non-vacuity: [wf] is satisfiable (all three EOL styles, several subsections, a free chain), and the
    checker rejects a file with one byte prepended (header) or inserted into the first object (startxref
    then no longer points at "xref") *)
